@@ -15,6 +15,8 @@ func main() {
 		cmdDump(os.Args[2:])
 	case "gen":
 		cmdGen(os.Args[2:])
+	case "liftgen":
+		cmdLiftGen(os.Args[2:])
 	default:
 		fmt.Fprintln(os.Stderr, "unknown command")
 		os.Exit(2)
